@@ -1,8 +1,235 @@
 package props
 
 import (
+	"fmt"
+	"reflect"
+	"regexp"
+	"strconv"
+	"strings"
+
+	"github.com/go-gts/gts"
 	"verif/engine"
+	"verif/locdom"
 )
 
-func c08LocatorEval(c c08Case) (bool, string, string) { return true, "", "" }
-func c08Locators(r *engine.Run) bool                  { return true }
+// Locator clause of C08: 'X@M' denotes exactly the regions of X each resized by M.
+
+var (
+	reHead  = `\^([+-]?\d+)?`
+	reTail  = `\$([+-]?\d+)?`
+	reModHT = regexp.MustCompile(`^` + reHead + `\.\.` + reTail + `$`)
+	reModHH = regexp.MustCompile(`^` + reHead + `\.\.` + reHead + `$`)
+	reModTT = regexp.MustCompile(`^` + reTail + `\.\.` + reTail + `$`)
+	reModH  = regexp.MustCompile(`^` + reHead + `$`)
+	reModT  = regexp.MustCompile(`^` + reTail + `$`)
+	rePoint = regexp.MustCompile(`^\d+$`)
+	reRange = regexp.MustCompile(`^(<?)(\d+)\.\.(>?)(\d+)$`)
+)
+
+func atoiOr0(s string) int {
+	if s == "" {
+		return 0
+	}
+	n, _ := strconv.Atoi(s)
+	return n
+}
+
+// refModifier parses the modifier grammar independently of gts.
+func refModifier(s string) (gts.Modifier, bool) {
+	if m := reModHT.FindStringSubmatch(s); m != nil {
+		return gts.HeadTail{atoiOr0(m[1]), atoiOr0(m[2])}, true
+	}
+	if m := reModHH.FindStringSubmatch(s); m != nil {
+		return gts.HeadHead{atoiOr0(m[1]), atoiOr0(m[2])}, true
+	}
+	if m := reModTT.FindStringSubmatch(s); m != nil {
+		return gts.TailTail{atoiOr0(m[1]), atoiOr0(m[2])}, true
+	}
+	if m := reModH.FindStringSubmatch(s); m != nil {
+		return gts.Head(atoiOr0(m[1])), true
+	}
+	if m := reModT.FindStringSubmatch(s); m != nil {
+		return gts.Tail(atoiOr0(m[1])), true
+	}
+	return nil, false
+}
+
+func refBareLocation(s string) (gts.Region, bool) {
+	comp := false
+	for strings.HasPrefix(s, "complement(") && strings.HasSuffix(s, ")") {
+		s = s[len("complement(") : len(s)-1]
+		comp = !comp
+	}
+	var seg gts.Segment
+	if rePoint.MatchString(s) {
+		p, _ := strconv.Atoi(s)
+		seg = gts.Segment{p - 1, p}
+	} else if m := reRange.FindStringSubmatch(s); m != nil {
+		a, _ := strconv.Atoi(m[2])
+		b, _ := strconv.Atoi(m[4])
+		seg = gts.Segment{a - 1, b}
+	} else {
+		return nil, false
+	}
+	if comp {
+		return gts.Segment{seg[1], seg[0]}, true
+	}
+	return seg, true
+}
+
+type expRegion struct {
+	atoms []ratom
+	at    map[int]bool // acceptable position when zero-length
+}
+
+func resizeRef(region gts.Region, mod gts.Modifier) expRegion {
+	segs := flatSegs(region)
+	all := regionAtoms(region)
+	lo, hi := modBounds(mod, len(all))
+	var exp []ratom
+	for x := lo; x < hi; x++ {
+		exp = append(exp, axisAtom(segs, all, x))
+	}
+	return expRegion{exp, axisBoundaries(segs, all, lo)}
+}
+
+func c08LocatorEval(c c08Case) (bool, string, string) {
+	feats := make(gts.FeatureSlice, len(c.Feats))
+	for i, s := range c.Feats {
+		feats[i] = decFeature(s)
+	}
+	seq := gts.New(nil, feats, cloneBytes(c08Residues(c.L)))
+	// reference
+	xs, ms := c.Str, ""
+	hasMod := false
+	if i := strings.IndexByte(c.Str, '@'); i >= 0 {
+		xs, ms, hasMod = c.Str[:i], c.Str[i+1:], true
+	}
+	var base []gts.Region
+	judged := true
+	switch {
+	case xs == "" && hasMod:
+		for _, f := range feats {
+			base = append(base, f.Loc.Region())
+		}
+	default:
+		if m, ok := refModifier(xs); ok {
+			base = []gts.Region{gts.Segment{0, c.L}.Resize(m)}
+			// whole sequence resized: use the model, not gts, for the expectation below
+			er := resizeRef(gts.Segment{0, c.L}, m)
+			_ = er
+		} else if r, ok := refBareLocation(xs); ok {
+			base = []gts.Region{r}
+		} else if sel, ok := parseRefSelector(xs); ok && xs != "" {
+			for _, f := range feats {
+				if sel.accepts(f) {
+					base = append(base, f.Loc.Region())
+				}
+			}
+		} else {
+			judged = false
+		}
+	}
+	var mod gts.Modifier
+	if hasMod {
+		var ok bool
+		mod, ok = refModifier(ms)
+		if !ok {
+			judged = false
+		}
+	}
+	var got gts.Regions
+	var err error
+	if p, msg := engine.Safely(func() {
+		var loc gts.Locator
+		loc, err = gts.AsLocator(c.Str)
+		if err == nil {
+			got = loc(seq)
+		}
+	}); p {
+		return false, "panic", fmt.Sprintf("AsLocator(%q) panics: %s", c.Str, msg)
+	}
+	if !judged {
+		return true, "", ""
+	}
+	if err != nil {
+		return false, "locator-rejected", fmt.Sprintf("AsLocator(%q) rejected: %v", c.Str, err)
+	}
+	if len(got) != len(base) {
+		return false, "locator-count", fmt.Sprintf("AsLocator(%q) on %v gives %d regions %v, want %d", c.Str, c.Feats, len(got), got, len(base))
+	}
+	for i, b := range base {
+		var exp expRegion
+		if m, ok := refModifier(xs); ok && !(xs == "" && hasMod) {
+			exp = resizeRef(gts.Segment{0, c.L}, m)
+			if hasMod {
+				// X@M with X a bare modifier: the resized whole-sequence segment resized again
+				exp = resizeRef(b, mod)
+			}
+		} else if hasMod {
+			exp = resizeRef(b, mod)
+		} else {
+			exp = expRegion{regionAtoms(b), map[int]bool{b.Head(): true}}
+		}
+		ga := regionAtoms(got[i])
+		if !reflect.DeepEqual(ga, exp.atoms) && !(len(ga) == 0 && len(exp.atoms) == 0) {
+			return false, "locator-region", fmt.Sprintf("AsLocator(%q) on %v: region %d is %v covering %v, want %v", c.Str, c.Feats, i, got[i], ga, exp.atoms)
+		}
+		if len(exp.atoms) == 0 && !exp.at[got[i].Head()] {
+			return false, "locator-site", fmt.Sprintf("AsLocator(%q) on %v: region %d is %v, want a zero-length region at one of %v", c.Str, c.Feats, i, got[i], exp.at)
+		}
+	}
+	return true, "", ""
+}
+
+func c08Locators(r *engine.Run) bool {
+	L := 14
+	mkf := func(key string, loc gts.Location, props string) string {
+		return key + "|" + locdom.Encode(loc) + "|" + props
+	}
+	f1 := mkf("gene", gts.Range(2, 6), "a=x")
+	f2 := mkf("CDS", gts.Complemented{Location: gts.Joined{gts.Range(1, 3), gts.Range(5, 7), gts.Range(9, 12)}}, "b=y;a=xy")
+	f3 := mkf("gene", gts.Joined{gts.Range(3, 4), gts.Range(6, 8), gts.Complemented{Location: gts.Range(10, 12)}}, "b=x")
+	f4 := mkf("source", gts.Range(0, L), "a=x")
+	tables := [][]string{{}, {f1}, {f2}, {f4, f1, f2}, {f1, f3, f2}, {f3, f2, f1}}
+	xs := []string{"", "^", "$", "^..$", "^+2..$-3", "^-1..^+2", "$-3..$", "3", "14", "2..5", "<2..>5", "complement(2..5)", "complement(7)",
+		"gene", "CDS", "source", "gene/a=x", "/b", "/b=x", "CDS/a=^x", "misc", "/a=x/b"}
+	var mods []string
+	mods = append(mods, "")
+	for p := -2; p <= 9; p++ {
+		mods = append(mods, gts.Head(p).String(), gts.Tail(-p).String())
+	}
+	for p := -2; p <= 8; p += 1 {
+		for q := -2; q <= 8; q += 2 {
+			mods = append(mods, gts.HeadHead{p, q}.String(), gts.HeadTail{p, -q}.String(), gts.TailTail{-p, -q + 1}.String())
+		}
+	}
+	total := len(tables) * len(xs) * len(mods)
+	done := r.ParallelFor(total, func(idx int) {
+		t := tables[idx%len(tables)]
+		x := xs[(idx/len(tables))%len(xs)]
+		m := mods[idx/(len(tables)*len(xs))]
+		s := x
+		if m != "" {
+			s = x + "@" + m
+		}
+		if s == "" {
+			return
+		}
+		c := c08Case{Kind: "locator", Str: s, Feats: t, L: L}
+		r.Evals.Add(1)
+		r.Transitions.Add(1)
+		ok, sig, detail := c08LocatorEval(c)
+		if len(t) >= 2 && strings.Contains(s, "@") {
+			r.Distinct.Add("loc|" + s + "|" + strings.Join(t, "&"))
+		}
+		if !ok {
+			r.Fail(engine.Failure{Sig: sig, Case: c, Detail: detail, Size: 5000 + len(s) + 10*len(t)})
+		}
+		if idx%7919 == 0 && r.WantSample() {
+			r.Sample(c)
+		}
+	})
+	r.Extra["locator_strings"] = len(xs) * len(mods)
+	return done
+}
